@@ -289,6 +289,17 @@ def registry(I):
                                                          {'s': I.rfi(), 'ch': [0, 1, 2]}), heavy=True)
     add('plot.violin', 'list', lambda: (lambda a: FlowCal.plot.violin(a['l'], channel='FL1', positions=a['pos'], yscale='log', violin_kwargs=a['vk']),
                                        {'l': [I.rfi(), I.rfi()[:200]], 'pos': [1.0, 2.0], 'vk': {'facecolor': 'gray'}}), heavy=True)
+    add('plot.violin', 'log-positions-with-zero', lambda: (lambda a: FlowCal.plot.violin(a['l'], channel='FL1', positions=a['pos'], xscale='log',
+                                                                                       yscale='log'),
+                                                          {'l': [I.rfi(), I.rfi()[:200], I.rfi()[100:300]], 'pos': [0, 1.0, 10.0]}), heavy=True)
+    add('plot.violin', 'arrays/horizontal-log-zero', lambda: (lambda a: FlowCal.plot.violin(a['l'], positions=a['pos'], yscale='log', xscale='log',
+                                                                                          vert=False),
+                                                             {'l': [np.linspace(5., 900., 150)[::-1].copy(), np.linspace(2., 500., 120)[::-1].copy()],
+                                                              'pos': [0, 5.0]}), heavy=True)
+    add('plot.violin_dose_response', 'log-positions-with-zero',
+        lambda: (lambda a: FlowCal.plot.violin_dose_response(a['l'], channel='FL1', positions=a['pos'], min_data=a['mn'], max_data=a['mx'],
+                                                             xscale='log', yscale='log'),
+                 {'l': [I.rfi(), I.rfi()[:200], I.rfi()[50:250]], 'pos': [0, 1.0, 10.0], 'mn': I.rfi()[:100], 'mx': I.rfi()[300:400]}), heavy=True)
     add('plot.violin_dose_response', 'list', lambda: (lambda a: FlowCal.plot.violin_dose_response(a['l'], channel='FL1', positions=a['pos'],
                                                                                                  min_data=a['mn'], xscale='log', yscale='log'),
                                                      {'l': [I.rfi(), I.rfi()[:200]], 'pos': [1.0, 10.0], 'mn': I.rfi()[:100]}), heavy=True)
